@@ -61,6 +61,17 @@ def run(ctx):
                         "bound": "%d test programs" % r["tried"]})
     if r["violation"]:
         ctx.violation("bounded/m_e2e", {"inputs": r["inputs"], "observed": r["violation"]}, True)
+    # destructor indices are cached on typemaps (ntypemap.idtor) and in the capsule tables: both must be per run
+    from effects.history import history_items
+    from effects.roots import global_memos
+    from checklib import REPO as _REPO
+    history_items(ctx, "C06", "destructor indices and capsule tables are assigned by the run that emits the release switch",
+                  select=lambda root, v: root.startswith(("wrapc.", "wrapp.", "typemap.")))
+    gm = global_memos(_REPO)
+    for b in gm:
+        ctx.item("C06/history/global-memo:%s:%s" % (b["file"], b["function"]), False, "%s:%d %s" % (b["file"], b["line"], b["what"]))
+    ctx.item("C06/history/no-process-lifetime-memo", not gm,
+             "no function tests and assigns a `global` name: typemaps (which cache their destructor index) are rebuilt per run")
     if ctx.tier == "thorough":
         r = ctx.monitor("m_capsule", "search", 60000, ctx.seed)
         ctx.bounded.append({"monitor": "m_capsule", "inputs_tried": r["tried"], "violation": r["violation"],
